@@ -1,4 +1,5 @@
 """Binds the simulator to the seams of seismic_zfp (module-level names) for the duration of a run."""
+import errno
 import gc
 import os
 import sys
@@ -129,15 +130,25 @@ class _PathShim:
 class _Stat:
     """The fields of os.stat_result a caller plausibly looks at for a regular file."""
 
-    def __init__(self, size):
+    def __init__(self, size, meta=None):
+        ino, mseq = meta or (1, 0)
         self.st_size = size
         self.st_mode = 0o100644
         self.st_blksize = 4096
         self.st_blocks = (size + 511) // 512
         self.st_nlink = 1
         self.st_uid = self.st_gid = 0
-        self.st_ino = self.st_dev = 1
-        self.st_mtime = self.st_atime = self.st_ctime = 1.7e9
+        self.st_ino = ino
+        self.st_dev = 1
+        # modification time: advances by a millisecond per event of the simulated disk
+        self.st_mtime_ns = self.st_ctime_ns = 1_700_000_000_000_000_000 + mseq * 1_000_000
+        self.st_atime_ns = 1_700_000_000_000_000_000
+        self.st_mtime = self.st_ctime = self.st_mtime_ns / 1e9
+        self.st_atime = 1.7e9
+
+    def __getitem__(self, i):          # os.stat_result is also a 10-tuple
+        return (self.st_mode, self.st_ino, self.st_dev, self.st_nlink, self.st_uid, self.st_gid, self.st_size,
+                int(self.st_atime), int(self.st_mtime), int(self.st_ctime))[i]
 
 
 class OsShim:
@@ -175,14 +186,14 @@ class OsShim:
         if h is not None:
             return self.fstat(p)
         if self._sim(p):
-            return _Stat(self.path.getsize(p))
+            return _Stat(self.path.getsize(p), self._fs.meta.get(p))
         return os.stat(p, *a, **k)
 
     def fstat(self, fd):
         h = self._handle(fd)
         if h is None:
             return os.fstat(fd)
-        return _Stat(len(self._fs.files[h._path]))
+        return _Stat(len(self._fs.files[h._path]), self._fs.meta.get(h._path))
 
     def fsync(self, fd):
         h = self._handle(fd)
@@ -237,10 +248,55 @@ class OsShim:
             return os.read(fd, n)
         return h.read(n)
 
-    def open(self, p, *a, **k):
-        if self._sim(p):
-            raise core.HarnessError('unsupported stub API: os.open on a simulated path')
-        return os.open(p, *a, **k)
+    def write(self, fd, data):
+        h = self._handle(fd)
+        if h is None:
+            return os.write(fd, data)
+        if not hasattr(h, 'os_write'):
+            raise OSError(errno.EBADF, 'Bad file descriptor')
+        return h.os_write(data)
+
+    def pwrite(self, fd, data, offset):
+        h = self._handle(fd)
+        if h is None:
+            return os.pwrite(fd, data, offset)
+        if not hasattr(h, 'os_write'):
+            raise OSError(errno.EBADF, 'Bad file descriptor')
+        return h.os_write(data, offset)
+
+    def open(self, p, flags=0, mode=0o777, **k):
+        if not self._sim(p):
+            return os.open(p, flags, mode, **k)
+        # an unbuffered descriptor on the simulated disk
+        acc = flags & (os.O_WRONLY | os.O_RDWR)
+        if acc == 0:
+            h = self._fs.open(p, 'rb')
+            return h.fileno()
+        exists = self._fs.exists(p)
+        if not exists and not flags & os.O_CREAT:
+            raise FileNotFoundError(errno.ENOENT, 'No such file or directory', p)
+        if exists and flags & os.O_CREAT and flags & os.O_EXCL:
+            raise FileExistsError(errno.EEXIST, 'File exists', p)
+        if flags & os.O_TRUNC or not exists:
+            m = 'wb' if acc == os.O_WRONLY else 'w+b'
+        elif flags & os.O_APPEND:
+            m = 'ab' if acc == os.O_WRONLY else 'a+b'
+        else:
+            m = 'r+b'
+        h = self._fs.open(p, m, buffering=0)
+        return h.fileno()
+
+    def close(self, fd):
+        h = self._handle(fd)
+        if h is None:
+            return os.close(fd)
+        h.close()
+
+    def fdopen(self, fd, *a, **k):
+        h = self._handle(fd)
+        if h is None:
+            return os.fdopen(fd, *a, **k)
+        return h
 
     def __getattr__(self, name):
         return getattr(os, name)
